@@ -255,6 +255,10 @@ class Model:
                                     else 'leave-sid0', c, ns, h))
                     if len(w.pendcb.get((c, ns), ())) < self._maxcb(c, ns):
                         ops.append(('emitcb', c, ns, h))
+                        if h == self.placement[c]:
+                            # issued on the client's own host with
+                            # ignore_queue=True (no pub/sub round trip)
+                            ops.append(('emitcb', c, ns, h, 'iq'))
                 pend = w.pendcb.get((c, ns), ())
                 if (c, ns) in w.acked:
                     ops.append(('reack', c, ns))
@@ -382,14 +386,16 @@ class Model:
             ra, rb = self._both(w, do)
             self._results(w, op, ra, rb)
         elif kind == 'emitcb':
-            _, c, ns, h = op
+            _, c, ns, h = op[:4]
             w.ncb += 1
             k = w.ncb
+            extra = {'ignore_queue': True} if len(op) > 4 else {}
 
             def do(s):
                 return s.api(h, 'emit', 'q', {'n': k}, to=s.sids[(c, ns)],
                              namespace=ns,
-                             callback=lambda *a, s=s: s.cb.append((k, a)))
+                             callback=lambda *a, s=s: s.cb.append((k, a)),
+                             **extra)
             ra, rb = self._both(w, do)
             self._results(w, op, ra, rb)
             w.pendcb[(c, ns)] = w.pendcb.get((c, ns), ()) + (h,)
